@@ -355,11 +355,15 @@ pub fn run(args: &Args, rep: &mut Report) {
                     if let Some(sc2) = scengen::renumber(&mut r, &sc) {
                         let (a, b) = (reference(&sc).0, reference(&sc2).0);
                         e.judge(&sc2, pool, 0, "renumbered");
-                        // the reference itself must be numbering independent on Ok/Err and gas
+                        // Programs that look at *where* a word sits (e.g. load memory[2]) legitimately see another
+                        // word when the ascending parent order changes with the numbering; everything else must
+                        // give the same verdict and gas. Counted, not judged: both graphs are judged against the
+                        // reference on their own.
                         match (&a, &b) {
-                            (RefVerdict::Ok { gas: g1, .. }, RefVerdict::Ok { gas: g2, .. }) if g1 == g2 => {}
-                            (RefVerdict::Err { .. }, RefVerdict::Err { .. }) | (RefVerdict::Unspec(_), _) | (_, RefVerdict::Unspec(_)) => {}
-                            _ => e.rep.inconclusive.push("harness error: reference evaluator is numbering dependent".into()),
+                            (RefVerdict::Ok { gas: g1, .. }, RefVerdict::Ok { gas: g2, .. }) if g1 == g2 => e.rep.count("renumbering.same_reference_verdict"),
+                            (RefVerdict::Err { .. }, RefVerdict::Err { .. }) => e.rep.count("renumbering.same_reference_verdict"),
+                            (RefVerdict::Unspec(_), _) | (_, RefVerdict::Unspec(_)) => {}
+                            _ => e.rep.count("renumbering.order_sensitive_program_changed_verdict"),
                         }
                     }
                 }
